@@ -43,6 +43,8 @@ def run_shard(args):
     # anchors must be resolved before setup() wraps them (the wrappers keep the original in __pfv_orig__ anyway)
     reach_on = reach.start(getattr(mod, "ANCHORS", []))
     funcs_on = reach.start_functions(os.path.join(boot.REPO, "pfhedge"))
+    if os.environ.get("PFV_ARGAUDIT"):
+        reach.start_argaudit(os.path.join(boot.REPO, "pfhedge"))
     if hasattr(mod, "setup"):
         mod.setup(ctx)
     deadline = time.time() + args.budget
@@ -68,6 +70,11 @@ def run_shard(args):
         "required_branches": getattr(mod, "REQUIRED_BRANCHES", []),
         "drivers": [[n_, q, t] for n_, q, t, _ in mod.DRIVERS],
     }
+    if os.environ.get("PFV_ARGAUDIT"):
+        sys.setprofile(None)
+        os.makedirs(os.environ["PFV_ARGAUDIT"], exist_ok=True)
+        with open(os.path.join(os.environ["PFV_ARGAUDIT"], f"{args.pid}-{i}.json"), "w") as f:
+            json.dump(reach.argaudit_report(), f)
     with open(args.out, "w") as f:
         json.dump(out, f)
 
